@@ -17,6 +17,10 @@ CONSTANTS
  DevFetchAclOnRequestName = FALSE
  DevStaleOwnedOnSessionReplace = FALSE
  DevLeaseErrMisindexed = FALSE
+ MidOn = FALSE
+ DevAclCacheNoAction = FALSE
+ DevLateAcquireAfterRelease = FALSE
+ DevReacquireUnconditional = FALSE
 INIT Init
 NEXT Next
 INVARIANTS C19_AckOnlyIfHeld C19_NoWriteUnlessHeld C19_RefusalCode C19_NotLeaderForOtherOwner
